@@ -15,6 +15,7 @@ import GaleneVerif.Engine.Unbounded
 import GaleneVerif.Engine.Locks
 import GaleneVerif.Engine.Api
 import GaleneVerif.Engine.Rec
+import GaleneVerif.Engine.Streams
 /-
 Line-protocol driver.  usage: driver <engine> [oracle-only] < trace
 `oracle-only` (failing-input search): model/impl mismatches do not end the case;
@@ -95,7 +96,8 @@ def engines : List (String × EngineDef) :=
     ("unbounded", Galene.Engine.Unbounded.engine),
     ("locks", Galene.Engine.Locks.engine),
     ("api", Galene.Engine.Api.engine),
-    ("rec", Galene.Engine.Rec.engine) ]
+    ("rec", Galene.Engine.Rec.engine),
+    ("streams", Galene.Engine.Streams.engine) ]
 
 def main (args : List String) : IO UInt32 := do
   let (name?, oracleOnly) := match args with
